@@ -838,6 +838,14 @@ class _Gen:
                 s.mods.append(cm)
                 cons.append({'mid': cm.mid, 'uid': uid, 'refs': refs, 'kind': kind, 'cu': cu, 'style': style})
         s.notes['consumers'] = cons
+        # the defining module also *imports* something under the name it then defines (a fallback replaced by the real definition):
+        # after the move the old location must lead to the moved object, not to what had been imported
+        for uid, (rmid, exported) in list(s.moved.items()):
+            dmid, qual, kind = s.defs[uid]
+            dm = next(x for x in s.mods if x.mid == dmid)
+            if '.' not in qual and not dm.is_pkg and r.random() < .3:
+                dm.items.insert(0, Item(kind='raw', text=r.choice([f'from typing import Any as {qual}', f'from collections import OrderedDict as {qual}'])))
+                s.notes['definer_imports_the_name'] = True
         # insiders: definitions of the defining module itself that name the re-exported object in annotations, by the name it has
         # there, and that are themselves re-exported by a module that does not bind that name
         ins = []
